@@ -111,6 +111,52 @@ Proof.
   pose proof cachelito_progs_ordered as Hall. rewrite forallb_forall in Hall. apply Hall. exact Hin.
 Qed.
 
+(* The same statement for TRACES instead of programs: threads whose operations are any lock
+   traces that respect the order (acquire only locks ranked above everything held, release
+   only what is held, end holding nothing) never deadlock.  This is what the correspondence
+   checks on every recorded trace of the real code, whatever the shape of the code that
+   produced it; the programs above describe the shapes known today. *)
+Fixpoint prog_of_trace (t : list action) : prog :=
+  match t with [] => Skip | x :: t' => Seq (Act x) (prog_of_trace t') end.
+
+Lemma lang_prog_of_trace : forall t, lang (prog_of_trace t) t.
+Proof.
+  induction t as [|x t IH]; cbn [prog_of_trace].
+  - constructor.
+  - change (x :: t) with ([x] ++ t). constructor; [constructor|exact IH].
+Qed.
+
+Lemma wo_prog_of_trace : forall rk h t, wo rk h (prog_of_trace t) = wo_trace rk h t.
+Proof.
+  intros rk h t. revert h. induction t as [|x t IH]; intro h; cbn [prog_of_trace wo wo_trace].
+  - reflexivity.
+  - destruct (step_held rk h x) as [h'|]; [apply IH|reflexivity].
+Qed.
+
+Definition trace_ordered (t : list action) : bool :=
+  match wo_trace rank [] t with Some [] => true | _ => false end.
+
+Theorem cachelito_no_deadlock_traces :
+  forall (enabled : config -> nat -> bool),
+    EnabledNonAcq enabled -> BlockedMeansHeld enabled ->
+    forall c0 : config,
+      (forall i th, nth_error c0 i = Some th ->
+         held th = [] /\
+         exists ts, Forall (fun t => trace_ordered t = true) ts /\ todo th = concat ts) ->
+      forall c, reachable enabled c0 c ->
+        (forall i th, nth_error c i = Some th -> todo th = []) \/
+        exists i c', step enabled c i c'.
+Proof.
+  intros enabled H1 H2 c0 H0 c Hr.
+  apply (no_deadlock_reachable_closed rank enabled H1 H2 c0); [|exact Hr].
+  intros i th Hn. destruct (H0 i th Hn) as [Hh [ts [Hts Htodo]]]. split; [exact Hh|].
+  exists ts. split; [|exact Htodo].
+  eapply Forall_impl; [|exact Hts].
+  intros t Ht. exists (prog_of_trace t). split; [|apply lang_prog_of_trace].
+  rewrite wo_prog_of_trace. unfold trace_ordered in Ht.
+  destruct (wo_trace rank [] t) as [[|x l]|]; congruence.
+Qed.
+
 (* a suspended async call holds no cache lock *)
 Theorem suspended_call_holds_nothing :
   forall (cfg : config) (i : nat) (th : thread) (rest : list action),
@@ -119,5 +165,6 @@ Theorem suspended_call_holds_nothing :
 Proof. intros. eapply yield_holds_nothing_closed; eauto. Qed.
 
 Print Assumptions cachelito_no_deadlock.
+Print Assumptions cachelito_no_deadlock_traces.
 Print Assumptions suspended_call_holds_nothing.
 Print Assumptions cachelito_progs_ordered.
